@@ -247,7 +247,7 @@ impl Property for C13 {
         ]
     }
     fn cases(&self, tier: Tier) -> u64 {
-        tier.pick(4_000, 200_000)
+        tier.pick(8_000, 300_000)
     }
     fn max_shrink_iters(&self) -> u32 {
         256
